@@ -27,7 +27,7 @@ def run_file_rename(cfg: FileRenameConfig) -> int:
     src_link_name = c.simplify_fname(cfg.zettel_dir, cfg.src_name)
     dest_link_name = c.simplify_fname(cfg.zettel_dir, cfg.dest_name)
     link_map = {
-        f"[[{src_link_name}]": f"[[{dest_link_name}]",
+        f"[[{src_link_name}]]": f"[[{dest_link_name}]]",
         f"[[{src_link_name}#": f"[[{dest_link_name}#",
     }
     for zpath in c.get_all_zfiles(cfg.zettel_dir):
